@@ -187,6 +187,11 @@ def res_code(res, call, extra):
         return ["character(len=%d) :: zz_r" % res.flen], ["zz_r = " + call, "call obs_s(zz_r)"]
     if isinstance(res, (A.CStrRes, A.StrRes)):
         return ["character(len=:), allocatable :: zz_r"], ["zz_r = " + call, "call obs_s(zz_r)"]
+    if isinstance(res, A.ArrRes2):
+        shp = ["call obs_i(int(size(zz_r, 1), C_LONG_LONG))", "call obs_i(int(size(zz_r, 2), C_LONG_LONG))", obs_array(res.t, "reshape(zz_r, [size(zz_r)])")]
+        if res.deref == "allocatable":
+            return ["%s, allocatable :: zz_r(:,:)" % res.t.fdecl], ["zz_r = " + call] + shp
+        return ["%s, pointer :: zz_r(:,:)" % res.t.fdecl], ["zz_r => " + call] + shp
     if isinstance(res, A.ArrRes):
         if res.deref == "allocatable":
             return ["%s, allocatable :: zz_r(:)" % res.t.fdecl], ["zz_r = " + call, obs_array(res.t, "zz_r")]
